@@ -34,7 +34,9 @@ TRUSTED = [
 ASSUMPTIONS = [
     'constructors forward every argument unchanged to the parameter of the same name; argument names are parameter names',
     'dict keys and set elements are atoms; no complex numbers, frozensets, functions, types',
-    'states are those reachable by one constructor call',
+    'states are those reachable by one constructor call, possibly after class-level defaults were re-assigned '
+    '(only on classes whose constructors, and those of their subclasses, take **params: otherwise an existing '
+    'object keeps a value its constructor cannot be given)',
     'names matching <ClassName><digits> count as auto-generated ("auto-generated names aside")',
     'theorem: signature without *args and without keyword-only arguments, with **params, `name` not positional, '
     'no Parameterized objects inside dict values (those are executed and checked by both oracles, not proved)',
@@ -43,11 +45,12 @@ RULE = ('directed prefix (escapes, negative numbers, inf/nan, empty and singleto
         'positional + keyword signatures, signature default equal/different from the Parameter default, precedence '
         'ordering, nested objects in parameters / lists / dicts, keyword-only, *args, no **params) + random: 1-3 classes '
         'built with type(...), 1-5 Parameters each with random literal defaults and precedences, random constructor '
-        'signatures, nested Parameterized values, random constructor calls. For both .param.pprint() and '
+        'signatures, single inheritance (constructors inherited), histories before the object is built (classes '
+        'used, class-level defaults re-assigned also on ancestors), nested Parameterized values, random constructor calls. For both .param.pprint() and '
         'script_repr(): tokens compared with the model, text eval-ed in a namespace with the classes (direct oracle) '
         'and read by the Lean evaluator. non-trivial = both printers applicable and at least one printed argument; '
         'distinct = distinct canonical recipe')
-COVERAGE_TARGETS = ['atom:num', 'atom:str', 'atom:bytes', 'atom:none', 'atom:negative', 'list', 'list:empty', 'tuple',
+COVERAGE_TARGETS = ['hierarchy', 'pre:use', 'pre:set', 'pre:set-on-ancestor', 'atom:num', 'atom:str', 'atom:bytes', 'atom:none', 'atom:negative', 'list', 'list:empty', 'tuple',
                     'tuple:empty', 'tuple:singleton', 'set', 'set:empty', 'dict', 'dict:empty', 'in-dict:obj',
                     'obj:nested', 'sig:default', 'sig:custom', 'sig:posargs', 'sig:kwargs', 'sig:kwonly',
                     'sig:varargs', 'sig:no-varkw', 'name:auto', 'name:auto-like', 'name:explicit',
@@ -160,7 +163,8 @@ class Env:
                 src = f'def __init__({", ".join(parts)}):\n    _super(_H[0], self).__init__({", ".join(fwd)})\n'
                 exec(src, g)
                 body['__init__'] = g['__init__']
-            cls = type(d['name'], (param.Parameterized,), body)
+            base = self.classes[d['base']] if d.get('base') is not None else param.Parameterized
+            cls = type(d['name'], (base,), body)
             if sig['custom']:
                 holder.append(cls)
             self.classes.append(cls)
@@ -175,6 +179,17 @@ class Env:
                     setattr(cur, part, types.SimpleNamespace())
                 cur = getattr(cur, part)
             setattr(cur, d['name'], cls)
+        # history before the object is built: classes get used (their parameter namespace is read and
+        # cached), class-level defaults are re-assigned, possibly on a class in the middle of a hierarchy
+        for step in case.get('pre', []):
+            cls = self.classes[step['cls']]
+            if step['op'] == 'use':
+                list(cls.param.objects('existing').items())
+                cls.param.values()
+            elif step['op'] == 'set':
+                setattr(cls, step['p'], self.build(step['v']))
+            else:
+                raise ValueError(step)
 
     def build(self, r):
         """recipe -> Python value"""
@@ -198,8 +213,8 @@ class Env:
         param = self.param
         if isinstance(v, param.Parameterized):
             ci = self.classes.index(type(v))
-            vals = v.param.values()
-            return {'o': [ci, [self.state_of(vals[k]) for k in v.param.objects('existing')]]}
+            # attribute access, not .param.values(): the state must not depend on the machinery under test
+            return {'o': [ci, [self.state_of(getattr(v, k)) for k in v.param.objects('existing')]]}
         if is_atom(v):
             return {'a': enc_atom(v)}
         if isinstance(v, list):
@@ -217,8 +232,9 @@ class Env:
         for d, cls in zip(self.case['classes'], self.classes):
             params = []
             for name, p in cls.param.objects('existing').items():
-                params.append({'name': name, 'default': self.state_of(p.default), 'prec': p.precedence})
-            sig = d['sig']
+                # the default a new instance really gets: class attribute lookup
+                params.append({'name': name, 'default': self.state_of(getattr(cls, name)), 'prec': p.precedence})
+            sig = _effective_sig(self.case['classes'], self.case['classes'].index(d))
             out.append({'name': d['name'], 'qual': _toks(d['module'] + '.'), 'params': params,
                         'sig': {'args': sig['args'],
                                 'defaults': [self.state_of(self.build(x)) for x in sig['defaults']],
@@ -226,6 +242,24 @@ class Env:
                                 'varargs': sig['varargs'],
                                 'varkw': sig['varkw'] if sig['custom'] else True}})
         return out
+
+
+def _effective_sig(classes, ci):
+    """a class without its own __init__ inherits the constructor of its base"""
+    d = classes[ci]
+    if d['sig']['custom'] or d.get('base') is None:
+        return d['sig']
+    return _effective_sig(classes, d['base'])
+
+
+def _flat(classes, ci):
+    """class description with inherited parameters and the effective constructor signature"""
+    d = classes[ci]
+    params = []
+    if d.get('base') is not None:
+        own = {p['name'] for p in d['params']}
+        params = [p for p in _flat(classes, d['base'])['params'] if p['name'] not in own]
+    return {'name': d['name'], 'module': d['module'], 'params': params + d['params'], 'sig': _effective_sig(classes, ci)}
 
 
 # ---------------------------------------------------------------- text -> token tree
@@ -356,7 +390,8 @@ def _same(param, a, b, path='value'):
     if isinstance(a, param.Parameterized) or isinstance(b, param.Parameterized):
         if type(a) is not type(b):
             return f'{path}: class {type(b).__name__} instead of {type(a).__name__}'
-        va, vb = a.param.values(), b.param.values()
+        va = {k: getattr(a, k) for k in a.param.objects('existing')}
+        vb = {k: getattr(b, k) for k in b.param.objects('existing')}
         for k in va:
             if k == 'name':
                 if not _autolike(type(a).__name__, va[k]) and va[k] != vb[k]:
@@ -467,12 +502,20 @@ def SIG(args=(), defaults=(), kwonly=(), varargs=None, varkw=True, custom=True):
 DEFAULT_SIG = SIG(custom=False)
 
 
-def C(name, params, sig=DEFAULT_SIG, module='c20ns'):
-    return {'name': name, 'module': module, 'params': params, 'sig': copy.deepcopy(sig)}
+def C(name, params, sig=DEFAULT_SIG, module='c20ns', base=None):
+    return {'name': name, 'module': module, 'params': params, 'sig': copy.deepcopy(sig), 'base': base}
 
 
-def _mk(classes, build):
-    return {'classes': classes, 'build': build}
+def USE(ci):
+    return {'op': 'use', 'cls': ci}
+
+
+def SET(ci, pname, v):
+    return {'op': 'set', 'cls': ci, 'p': pname, 'v': v}
+
+
+def _mk(classes, build, pre=()):
+    return {'classes': classes, 'pre': list(pre), 'build': build}
 
 
 def _directed():
@@ -537,6 +580,19 @@ def _directed():
     NK = C('NK', Acls['params'], SIG(['n', 's'], [A('zz')], varkw=False))
     yield _mk([IN, Acls, NK], O(2, A(5)))
     yield _mk([IN, Acls, NK], O(2, A(5), A('q')))
+    # hierarchy Base -> Mid -> Leaf; the leaf is used, then a default is re-assigned on the class in the middle;
+    # a leaf object holding the OLD default must still print it (the rebuilt object would get the new one)
+    BASE = C('Base', [P('scale', A(1.5)), P('tags', L(A('a'))), P('title', A('base'))])
+    MID = C('Mid', [], base=0)
+    LEAF = C('Leaf', [P('depth', A(0))], SIG(['depth'], [A(0)]), base=1)
+    H = [BASE, MID, LEAF]
+    yield _mk(H, O(2, A(3), scale=A(-4.0), title=A('it\'s "q"\n')))
+    yield _mk(H, O(2, scale=A(1.5)), [USE(2), SET(1, 'scale', A(-2.5))])
+    yield _mk(H, O(2, A(2), tags=L(A('a')), title=A('base')), [USE(2), USE(1), SET(1, 'tags', L()), SET(1, 'title', A('mid'))])
+    yield _mk(H, O(2, scale=A(-2.5)), [USE(2), SET(1, 'scale', A(-2.5))])
+    yield _mk(H, O(1, scale=A(1.5)), [USE(2), USE(1), SET(0, 'scale', A(7)), SET(1, 'scale', A(-2.5))])
+    yield _mk(H, O(0, scale=A(1.5), tags=L(O(2, scale=A(1.5)), O(1, scale=A(1.5)))), [USE(2), SET(1, 'scale', A(-2.5)), USE(0)])
+    yield _mk(H, O(2, depth=A(0)), [USE(2), SET(2, 'depth', A(9)), SET(0, 'title', A('x'))])
     # name as a keyword argument of the signature
     NM = C('NM', Acls['params'], SIG(['n', 'name'], [A('fixed')]))
     yield _mk([IN, Acls, NM], O(2, A(5)))
@@ -604,7 +660,7 @@ _CLASSES_FOR_CALL = []
 
 def _call(rng, ci, depth, classes):
     classes = classes if classes is not None else _CLASSES_FOR_CALL[0]
-    d = classes[ci]
+    d = _flat(classes, ci)
     sig = d['sig']
     pnames = [p['name'] for p in d['params']]
     nd = len(sig['defaults'])
@@ -669,10 +725,16 @@ def _random_case(rng):
         params = []
         for n in names:
             params.append(P(n, _value(rng, 2, ci), rng.choice([None, None, None, 0, 1, -1, 5, 2])))
+        base = None
+        if ci > 0 and rng.random() < 0.35:
+            base = ci - 1
+            if rng.random() < 0.4:
+                params = params[:rng.randint(0, len(params))]      # often only inherits
         r = rng.random()
-        if r < 0.35:
+        if r < 0.35 or (base is not None and (_effective_sig(classes, base)['custom'] or not params)):
             sig = copy.deepcopy(DEFAULT_SIG)
         else:
+            names = [p['name'] for p in params]
             k = rng.randint(1, len(names))
             args = rng.sample(names, k)
             if rng.random() < 0.06:
@@ -699,8 +761,27 @@ def _random_case(rng):
                 varkw = False
             sig = SIG(args, defaults, kwonly, varargs, varkw)
         classes.append(C(rng.choice(['A', 'Bc', 'In', 'K9', 'X_y'][ci:ci + 3] or ['Z']) + ('' if ci == 0 else str(ci)),
-                         params, sig, rng.choice(MODULES)))
-    return _mk(classes, _call(rng, ncls - 1, 3, classes))
+                         params, sig, rng.choice(MODULES), base))
+    pre = []
+    if rng.random() < 0.35:
+        for _ in range(rng.randint(1, 4)):
+            cj = rng.randrange(ncls)
+            pn = [p['name'] for p in _flat(classes, cj)['params']]
+            def is_desc(k):
+                while k is not None:
+                    if k == cj:
+                        return True
+                    k = classes[k].get('base')
+                return False
+            # objects that exist already (defaults of other classes) keep the old value: it must stay printable,
+            # i.e. every affected constructor takes **params
+            open_sig = all(not _effective_sig(classes, k)['custom'] or _effective_sig(classes, k)['varkw']
+                           for k in range(ncls) if is_desc(k))
+            if rng.random() < 0.5 or not pn or not open_sig:
+                pre.append(USE(rng.randrange(ncls)))
+            else:
+                pre.append(SET(cj, rng.choice(pn), _value(rng, 2, 0)))
+    return _mk(classes, _call(rng, ncls - 1, 3, classes), pre)
 
 
 def cases(rng, tier, worker, nworkers):
@@ -736,6 +817,17 @@ def _objs(classes, lit, in_dict=False):
 
 def tags(case, impl):
     t = [f'classes={len(case["classes"])}']
+    if any(d.get('base') is not None for d in case['classes']):
+        t.append('hierarchy')
+    for st in case.get('pre', []):
+        t.append('pre:' + st['op'])
+        top = case['build']['o'][0]
+        anc, c = [], case['classes'][top].get('base')
+        while c is not None:
+            anc.append(c)
+            c = case['classes'][c].get('base')
+        if st['op'] == 'set' and st['cls'] in anc:
+            t.append('pre:set-on-ancestor')
     if isinstance(impl, dict) and 'state' in impl:
         for key in ('pp', 'sr'):
             t.append(f'{key}:' + ('ok' if impl[key]['direct'] is None else 'direct-fails'))
@@ -785,6 +877,9 @@ def nontrivial(case, impl, resp):
 
 def shrink(case):
     b = case['build']
+    pre = case.get('pre', [])
+    for i in range(len(pre)):
+        yield dict(case, pre=pre[:i] + pre[i + 1:])
 
     def variants(r):
         """smaller recipes"""
